@@ -87,7 +87,9 @@ def _transport_cls():
     from qmi.core.exceptions import QMI_TimeoutException
 
     class RecTransport(QMI_Transport):
-        def __init__(self, rx: bytes, pending: bytes, sloppy: bool, budget: int = 40):
+        def __init__(self, rx: bytes, pending: bytes, sloppy: int, budget: int = 40):
+            # sloppy: 0 = strict byte stream, 1 = byte stream that hands out unterminated bytes, 2 = MESSAGE based transport
+            # (USBTMC / GPIB / VXI-11 style: read_until ignores the terminator and returns the whole device message)
             super().__init__()
             self._is_open = True
             self.rx = bytearray(rx)          # already received, not consumed
@@ -123,12 +125,18 @@ def _transport_cls():
             self._tick()
             term = bytes(message_terminator)
             self.log.append(f"u:{hx(term)}:{on(timeout)}")
+            if self.sloppy == 2:
+                if not self.rx:
+                    raise QMI_TimeoutException("fake message transport: no message")
+                out = bytes(self.rx)
+                self.rx.clear()
+                return out
             i = self.rx.find(term)
             if i >= 0:
                 out = bytes(self.rx[:i + len(term)])
                 del self.rx[:i + len(term)]
                 return out
-            if self.sloppy and self.rx:
+            if self.sloppy == 1 and self.rx:
                 out = bytes(self.rx)
                 self.rx.clear()
                 return out
@@ -236,7 +244,7 @@ def run_scpi(c: dict):
         clause = None if (out == "ok") == ascii_ok else "constructor-outcome"
         return line, out, clause, info
 
-    tr = T(unhx(c.get("rx", "-")), unhx(c.get("pending", "-")), bool(c.get("sloppy", 0)))
+    tr = T(unhx(c.get("rx", "-")), unhx(c.get("pending", "-")), int(c.get("sloppy", 0)))
     try:
         proto = ScpiProtocol(tr, ct, rt, dflt)
     except BaseException as e:  # noqa
@@ -308,7 +316,12 @@ def run_scpi(c: dict):
             # what the controller sees after the command went out
             stream = (b"" if discard else stale) + pending
             want_cmd = cmd.encode("ascii")
-            first = ref_first_response(stream, brt)
+            if tr.sloppy == 2:
+                # message based: the reply is the whole device message; it must end in the terminator, which is taken off once
+                first = (stream[:-len(brt)], b"") if stream.endswith(brt) else None
+                info["inner_terminators"] = min(stream[:-len(brt)].count(brt), 3) if first else 0
+            else:
+                first = ref_first_response(stream, brt)
             if bytes(tr.tx) != want_cmd + bct:
                 clause = "device-sees-different-command"
             elif first is None:
@@ -1253,7 +1266,8 @@ def run_real(c: dict):
                     # what came back instead: the previous reply (stale), a glued or a cut one?
                     prev = [unhx(e2["reply"]) for e2 in c["ex"][:i]]
                     g = got.encode("latin1") if isinstance(got, str) else bytes(got)
-                    clause = "driver-receives-previous-reply" if g in prev else "driver-receives-different-reply"
+                    clause = "driver-receives-previous-reply" if (g and prev and g == prev[-1] and g != payload) \
+                        else "driver-receives-different-reply"
                 elif dev.pending() or getattr(tr, "_read_buffer", b""):
                     clause = "bytes-left-behind-after-reply"
                 if clause:
@@ -1314,6 +1328,16 @@ def _real_sessions(level: int):
     yield {"kind": "t.sess", "tr": "usbtmc", "ct": [10], "rt": [10], "ex": [
         {"op": "ask", "cmd": "*IDN?", "reply": hx(b"QMI,fake,1"), "cuts": []},
         {"op": "ask", "cmd": "V?", "reply": hx(b"+1.5"), "cuts": []}]}
+    # message based transport: one device message with the response terminator 0..3 times inside the payload and once at
+    # the end (the real QMI_PyUsbTmcTransport.read_until ignores the terminator; the real read_raw gets EOM after the whole)
+    for rt in ([10], [13, 10], [59, 13, 10]):
+        brt = bytes(rt)
+        for inner in range(0, 4):
+            msg = brt.join([b"line%d" % i for i in range(inner + 1)])
+            yield {"kind": "t.sess", "tr": "usbtmc", "ct": [10], "rt": rt, "ex": [
+                {"op": "ask", "cmd": "LOG?", "reply": hx(msg), "cuts": []},
+                {"op": "ask", "cmd": "V?", "reply": hx(brt * inner + b"+1.5"), "cuts": []},
+                {"op": "ask", "cmd": "LOG?", "reply": hx(msg + brt[:1] * (len(brt) > 1)), "cuts": []}]}
     idn = b"QMI,fake\r,1"
     for k in range(0, len(idn) + 1):
         yield {"kind": "t.sess", "tr": "vxi11", "ct": [10], "rt": [10], "ex": [
@@ -1323,6 +1347,15 @@ def _real_sessions(level: int):
 
 
 def gen_real(rng) -> dict:
+    if rng.random() < 0.12:
+        rt = rng.choice([[10], [13, 10], [59, 13, 10], [10, 10]])
+        brt = bytes(rt)
+        ex = []
+        for _ in range(rng.randint(1, 4)):
+            parts = [bytes(rng.choice(b"+-.0129Eab" + brt) & 0x7F for _ in range(rng.choice([0, 1, 4, 9])))
+                     for _ in range(rng.choice([1, 1, 2, 3, 4]))]
+            ex.append({"op": "ask", "cmd": rng.choice(["*IDN?", "LOG?"]), "reply": hx(brt.join(parts)), "cuts": []})
+        return {"kind": "t.sess", "tr": "usbtmc", "ct": [10], "rt": rt, "ex": ex}
     kind = rng.choice(["tcp", "tcp", "udp", "serial"])
     rt = rng.choice([[10], [13, 10], [13, 10], [59, 13, 10], [13], [10, 10], [97, 98, 99]])
     brt = bytes(rt)
@@ -1435,8 +1468,13 @@ def gen_scpi(rng, big: bool) -> dict:
         stale = b""
         if rng.random() < 0.2:
             stale = _ascii(rng, rng.randint(1, 5), brt)
+        mode = rng.choice([0, 0, 1, 1, 2, 2])
+        if mode == 2 and shape < 0.6:
+            # one device message with the terminator 0, 1, 2, … times inside and once at the end
+            parts = [_ascii(rng, rng.choice([0, 1, 3, 6])) for _ in range(rng.choice([1, 1, 2, 3, 4]))]
+            pending = brt.join(parts) + brt
         return {"kind": "s.ask", **base, "cmd": _cmd(rng), "discard": int(rng.random() < 0.4),
-                "sloppy": int(rng.random() < 0.35), "rx": hx(stale), "pending": hx(pending)}
+                "sloppy": mode, "rx": hx(stale), "pending": hx(pending)}
     # binary blocks
     sizes = [0, 1, 2, 3, 8, 9, 10, 11, 12, 98, 99, 100, 101, 999, 1000, 1001]
     n = rng.choice(sizes) if rng.random() < 0.5 else rng.randint(0, 40)
@@ -1900,6 +1938,8 @@ class C15A(Prop):
             res.count(f"class_{c['kind']}_{_input_class(c)}")
             if "class" in info:
                 res.count(f"ref_{c['kind']}_{info['class']}")
+            if "inner_terminators" in info:
+                res.count(f"message_transport_reply_with_{info['inner_terminators']}_inner_terminators")
             for o in (out if isinstance(out, list) else [out]):
                 res.count("outcome_" + o.split(" ", 1)[0].split(":", 1)[0])
             if info.get("ntransfers", 0) > 1:
@@ -1963,7 +2003,7 @@ class C15A(Prop):
                     if f.signature not in seen:
                         seen.add(f.signature)
                         res.failures.append(f)
-        for c in _systematic(2):
+        for c in itertools.chain(_real_sessions(1), _systematic(2)):
             try:
                 clause = run_case(c)[2]
             except BaseException:  # noqa
@@ -2131,12 +2171,19 @@ def _systematic(level: int):
         yield {"kind": "s.bin", "rt": [10], "flag": 1, "rx": hx(ref_block_encode(d) + b"\n#10")}
     for cut in range(len(blk)):
         yield {"kind": "s.bin", "rt": [10], "flag": 1, "rx": hx(blk[:cut])}
+    # message based transport on the recording fake: terminator 0..3 times inside the message, final terminator present/absent
+    for rt in ([10], [13, 10], [59, 13, 10]):
+        brt = bytes(rt)
+        for inner in range(0, 4):
+            msg = brt.join([b"L%d" % i for i in range(inner + 1)])
+            for tail in (brt, b"", brt[:-1], brt + brt):
+                yield {"kind": "s.ask", "rt": rt, "cmd": [76, 63], "discard": 0, "sloppy": 2, "rx": "-", "pending": hx(msg + tail)}
     # ask: every position of the terminator / missing terminator, sloppy and strict transport
     for rt in ([10], [13, 10], [97, 97]):
         brt = bytes(rt)
         for reply in (b"", b"a", b"1.5", b"a\rb", b"xa"):
             for tail in (brt, brt[:-1], b"", brt + b"next" + brt):
-                for sloppy in (0, 1):
+                for sloppy in (0, 1, 2):
                     for discard, stale in ((0, b""), (0, b"old" + brt), (1, b"old" + brt), (1, b"junk")):
                         yield {"kind": "s.ask", "rt": rt, "cmd": [42, 73, 68, 78, 63], "discard": discard, "sloppy": sloppy,
                                "rx": hx(stale), "pending": hx(reply + tail), "to": rng.choice([None, 2]), "dflt": rng.choice([None, 5])}
